@@ -25,9 +25,15 @@ THEOREMS = [
     "QExPy.C02_fallback_uncorrelated3",
 ]
 RULE = ("seeded formula DAGs over 1-3 measurements (all operators, shared sub-expressions), "
-        "sigma/|mu| in [1e-3, 0.5] or 0, correlation structure in {none, random PD, near-singular "
-        "PD, jointly non-PD, rho=+-1 for two sources}, sample size 7/100/2000 set globally or per "
-        "quantity; numpy.random.normal is recorded while the library runs and the recorded offset "
+        "sigma/|mu| in [1e-3, 0.5] or 0, and sources at exactly 0 +/- s or with sigma/|mu| up to 5, "
+        "correlation structure in {none, random PD, near-singular "
+        "PD, cancelling in sum, one pair of three, jointly non-PD, rho=+-1 for two sources}, sample size "
+        "7/100/2000 set globally or per quantity (also pinned to the value the global size has at "
+        "that moment); 40 % of the cases have a history before the judged read (range, size, "
+        "strategy, recalculate, method switch, global size; sources and correlations CHANGED and the "
+        "result recalculated under Monte Carlo or while switched to the derivative method -- the "
+        "judged read is then compared with the model on the current values and on draws recorded "
+        "after the recalculation); numpy.random.normal is recorded while the library runs and the recorded offset "
         "matrix is fed to the Lean pipeline (Cholesky, scale/shift, formula on every draw, discard "
         "non-finite, mean, n-1 standard deviation); mc.samples() compared element-wise and "
         "value/error compared under the FB running error bound; non-trivial = some non-zero "
@@ -503,6 +509,8 @@ def run_prelude(q, r, case, meas=None, cap=None, wlist=None):
             for ed in edits:
                 if ed[1] == "rho-scale":
                     for ent in rho_now:
+                        if float(meas[ent[0]].error) == 0 or float(meas[ent[1]].error) == 0:
+                            continue      # an exact source takes no correlation (the library refuses)
                         ent[2] = ent[2] * ed[2]
                         q.set_correlation(meas[ent[0]], meas[ent[1]], ent[2])
                 else:
@@ -595,8 +603,10 @@ def observe(q, case):
     return out
 
 
-def expected_R(case, order, rho_eff=None):
-    errs = [unbits(b) for b in case["errs"]]
+def expected_R(case, order, rho_eff=None, errs_eff=None):
+    # gated by the uncertainties in force (a history may have made a source exact: 0 +/- s with
+    # relative_error = r has uncertainty r*|0| = 0)
+    errs = list(errs_eff) if errs_eff is not None else [unbits(b) for b in case["errs"]]
     rho = {}
     for i, j, r in (rho_eff if rho_eff is not None else [[i, j, unbits(b)] for i, j, b in case["rho"]]):
         rho[(i, j)] = rho[(j, i)] = r
@@ -667,10 +677,11 @@ def judge(case, o, m, failures, dist):
     k = len(order)
     batch = last_batch(o)
     # the correlation matrix the library builds is the gated matrix of what was set
-    if o["R"] != expected_R(case, order, o.get("rho_eff")):
+    if o["R"] != expected_R(case, order, o.get("rho_eff"), o.get("errs_eff")):
         failures.append(dict(base, signature="c02:corr-matrix", what="get_correlation over the "
                              "sources is not the gated matrix of the correlations that were set",
-                             impl=o["R"], expected=expected_R(case, order, o.get("rho_eff")),
+                             impl=o["R"], expected=expected_R(case, order, o.get("rho_eff"),
+                                                              o.get("errs_eff")),
                              clause="correlations"))
         return True, False
     # draws: one standard-normal array per source, of the configured size
@@ -1023,7 +1034,7 @@ def _reference_once(case, o):
     if len(o["samples"]) > want:
         return dict(base, signature="c02:sample-size", what="more stored samples than the configured "
                     "sample size", impl=len(o["samples"]), expected=want)
-    R = np.array(expected_R(case, order, o.get("rho_eff")), dtype=float)
+    R = np.array(expected_R(case, order, o.get("rho_eff"), o.get("errs_eff")), dtype=float)
     np.fill_diagonal(R, 1.0)
     pd = True
     C = Z
